@@ -15,12 +15,12 @@ import (
 type Expr interface{ exprString() string }
 
 type (
-	EIdent  struct{ Name string }
-	EInt    struct{ Val string } // decimal or 0x literal
-	EStr    struct{ Val string }
-	EBool   struct{ Val bool }
-	ENil    struct{}
-	EUnary  struct {
+	EIdent struct{ Name string }
+	EInt   struct{ Val string } // decimal or 0x literal
+	EStr   struct{ Val string }
+	EBool  struct{ Val bool }
+	ENil   struct{}
+	EUnary struct {
 		Op string
 		X  Expr
 	}
@@ -49,7 +49,7 @@ type (
 		Vars   []Param
 		Body   Expr
 	}
-	ECond struct{ C, A, B Expr } // ite(c, a, b)
+	ECond       struct{ C, A, B Expr } // ite(c, a, b)
 	ETypeAssert struct {
 		X    Expr
 		Type string
@@ -221,8 +221,8 @@ func ParseExpr(s string) (e Expr, err error) {
 type parseErr string
 
 func (p *specParser) fail(f string, a ...interface{}) { panic(parseErr(fmt.Sprintf(f, a...))) }
-func (p *specParser) peek() stok                     { return p.toks[p.pos] }
-func (p *specParser) next() stok                     { t := p.toks[p.pos]; p.pos++; return t }
+func (p *specParser) peek() stok                      { return p.toks[p.pos] }
+func (p *specParser) next() stok                      { t := p.toks[p.pos]; p.pos++; return t }
 func (p *specParser) isOp(s string) bool              { t := p.peek(); return t.kind == "op" && t.text == s }
 func (p *specParser) expectOp(s string) {
 	if !p.isOp(s) {
@@ -544,13 +544,14 @@ type WitnessBinding struct {
 }
 
 type LoopSpec struct {
-	Ordinal    int
-	Anchors    []string
-	Invariants []Clause
-	Passes     []string // bind names: every iteration that goes round the loop passes these program points
-	Decreases  *Clause
-	Modifies   []ModTarget // loop frame: only these cells change in the loop (function-level modifies must precede loop clauses)
-	ModGiven   bool
+	Ordinal      int
+	Anchors      []string
+	Invariants   []Clause
+	Passes       []string          // bind names: every iteration that goes round the loop passes these program points
+	PassesUnless map[string]Clause // bind name -> condition under which an iteration may skip that point
+	Decreases    *Clause
+	Modifies     []ModTarget // loop frame: only these cells change in the loop (function-level modifies must precede loop clauses)
+	ModGiven     bool
 }
 
 type ModTarget struct {
@@ -559,33 +560,33 @@ type ModTarget struct {
 }
 
 type Contract struct {
-	Key        string // function key as written (relative to the package of the file)
-	Pkg        string // import path of the package whose directory holds the file
-	File       string
-	Properties []string
-	Mode       Mode
-	ModeSet    bool
-	Requires   []Clause
-	Ensures    []Clause
-	Asserts    []Clause // proved at a program point (source-line anchor)
-	Binds      []Clause // ghost names bound to the value of an expression at a program point
-	Modifies   []ModTarget
-	ModNothing bool
-	ModGiven   bool
-	Inline     bool
-	Trusted    bool
-	MayPanic   bool
-	Case       string // non-empty: an additional contract ("func Key #case") for a function that has a plain one
-	NoSafety   bool // skip implicit panic obligations (stated in evidence)
-	Interference bool // acquiring a mutex havocs the fields it guards (other goroutines ran)
-	AssumePre  bool // callee preconditions are assumed, not proved, in this function (stated in evidence)
-	Wraps      bool // signed +,- wrap exactly (no overflow obligations)
-	Pure       bool // (assumed contracts) deterministic function of the argument values
-	Atomics    []*AtomicSpec
-	Witness    map[string][]WitnessBinding // ensures label -> witnesses for its existentials
-	Loops      []*LoopSpec
-	Ghost      []Param // ghost parameters (lemma-style universally quantified inputs)
-	Line       int
+	Key          string // function key as written (relative to the package of the file)
+	Pkg          string // import path of the package whose directory holds the file
+	File         string
+	Properties   []string
+	Mode         Mode
+	ModeSet      bool
+	Requires     []Clause
+	Ensures      []Clause
+	Asserts      []Clause // proved at a program point (source-line anchor)
+	Binds        []Clause // ghost names bound to the value of an expression at a program point
+	Modifies     []ModTarget
+	ModNothing   bool
+	ModGiven     bool
+	Inline       bool
+	Trusted      bool
+	MayPanic     bool
+	Case         string // non-empty: an additional contract ("func Key #case") for a function that has a plain one
+	NoSafety     bool   // skip implicit panic obligations (stated in evidence)
+	Interference bool   // acquiring a mutex havocs the fields it guards (other goroutines ran)
+	AssumePre    bool   // callee preconditions are assumed, not proved, in this function (stated in evidence)
+	Wraps        bool   // signed +,- wrap exactly (no overflow obligations)
+	Pure         bool   // (assumed contracts) deterministic function of the argument values
+	Atomics      []*AtomicSpec
+	Witness      map[string][]WitnessBinding // ensures label -> witnesses for its existentials
+	Loops        []*LoopSpec
+	Ghost        []Param // ghost parameters (lemma-style universally quantified inputs)
+	Line         int
 }
 
 type Pred struct {
@@ -641,7 +642,7 @@ type UFDecl struct {
 	Pkg    string
 }
 
-var clauseKeywords = map[string]bool{"ghoststruct": true, "guarded": true, "uf": true, "pred": true,"func": true, "lemma": true, "interface": true, "property": true, "mode": true,
+var clauseKeywords = map[string]bool{"ghoststruct": true, "guarded": true, "uf": true, "pred": true, "func": true, "lemma": true, "interface": true, "property": true, "mode": true,
 	"requires": true, "ensures": true, "assert": true, "bind": true, "modifies": true, "inline": true, "trusted": true, "loop": true, "invariant": true,
 	"decreases": true, "passes": true, "maypanic": true, "forall": false, "ghost": true, "method": true, "assume": true, "vars": true, "nosafety": true, "assumepre": true, "interference": true, "pure": true, "witness": true, "wraps": true,
 	"atomic": true, "rely": true, "guarantee": true, "addassume": true}
@@ -1115,6 +1116,23 @@ func (db *SpecDB) loadFile(path, pkg string, assumed bool) error {
 		case "passes":
 			if curLoop == nil {
 				return fmt.Errorf("%s:%d: passes outside loop", path, rc.line)
+			}
+			// "passes G unless e": an iteration may go round without passing G's point
+			// only if e holds on that back edge (e may name binds and function-level locals)
+			if k := strings.Index(rc.rest, " unless "); k >= 0 {
+				n := strings.TrimSpace(rc.rest[:k])
+				urc := rc
+				urc.rest = strings.TrimSpace(rc.rest[k+len(" unless "):])
+				cl, err := mkClause(urc)
+				if err != nil {
+					return err
+				}
+				curLoop.Passes = append(curLoop.Passes, n)
+				if curLoop.PassesUnless == nil {
+					curLoop.PassesUnless = map[string]Clause{}
+				}
+				curLoop.PassesUnless[n] = cl
+				break
 			}
 			for _, n := range strings.Split(rc.rest, ",") {
 				if n = strings.TrimSpace(n); n != "" {
